@@ -97,6 +97,11 @@ func checkC08(r *harness.Run) harness.Coverage {
 			}
 		}
 	}
+	// numerals with leading zeros are decimal (grammar: number = ["-"] 1*digit)
+	for _, t := range []string{"[010:]", "[:010]", "[::010]", "[08:]", "[-010:]", "[1:011]", "[::-01]", "[009:010:001]", "[0:00012]"} {
+		exprs = append(exprs, exprFromText(t), exprFromText("x"+t))
+	}
+	exprs = append(exprs, exprFromText("[010]"), exprFromText("x[011]"), exprFromText("[-012]"))
 	// two different slices in one expression (per-interpreter scratch state must not carry over)
 	forms := []string{"[:]", "[1:]", "[:1]", "[::2]", "[::-1]", "[1:3]", "[-2:]", "[:-1]", "[2::-1]", "[::1]", "[3:1:-1]", "[1::2]"}
 	for _, s1 := range forms {
@@ -112,6 +117,7 @@ func checkC08(r *harness.Run) harness.Coverage {
 		}
 		docs = append(docs, arr, map[string]interface{}{"x": arr})
 	}
+	docs = append(docs, univ.Js(`[0,1,2,3,4,5,6,7,8,9,10,11,12]`, `{"x":[0,1,2,3,4,5,6,7,8,9,10,11,12]}`)...)
 	docs = append(docs, univ.Js(`{"y":[{"a":0},{"a":1},{"a":2}]}`, `{"y":[{"a":[0]},{"a":[1]},{"a":[2]},{"a":[3]},{"a":[4]}]}`)...)
 	docs = append(docs, univ.Js(`[[0,1,2],[3,4],[5]]`, `{"x":[[0,1,2],[3,4],[5]]}`)...)
 	docs = append(docs, univ.Js(`null`, `true`, `3`, `"abcdef"`, `{}`, `{"x":"abc"}`, `{"x":{"a":[1,2]}}`, `{"x":null}`, `{"0":1}`)...)
